@@ -25,4 +25,20 @@ for p in $PROPS; do
   fi
   rm -f "$a" "$b" "$c"
 done
+# rare cases (strategy thresholds: thousands of edges) lie beyond the first N indices: replay three of them per
+# property twice, in separate processes, and compare the fingerprints
+tmp=$(mktemp -d)
+for p in $PROPS; do
+  case $p in C19|C20) continue;; esac
+  k=0
+  for i in $("$BIN" find --prop "$p" --source thousands 2>/dev/null | awk '{print $1}' | head -3); do
+    "$BIN" gen --prop "$p" --idx "$i" >"$tmp/case.json" 2>/dev/null
+    f1=$("$BIN" replay "$tmp/case.json" 2>/dev/null | grep -o "fingerprint=[0-9a-f]*" | head -1)
+    f2=$("$BIN" replay "$tmp/case.json" 2>/dev/null | grep -o "fingerprint=[0-9a-f]*" | head -1)
+    if [ -z "$f1" ] || [ "$f1" != "$f2" ]; then echo "determinism: $p case $i (thousands of edges) DIFFERS: $f1 vs $f2"; bad=1; fi
+    k=$((k+1))
+  done
+  echo "determinism: $p $k cases with thousands of edges replayed twice in separate processes: identical fingerprints"
+done
+rm -rf "$tmp"
 [ $bad -eq 0 ] && exit 0 || exit 2
